@@ -267,4 +267,11 @@ def run(ctx, prog):
         ctx.inst('C14.R4', 'kyrodb_server::main', 'recount precedes serving and feeds the served state', ok,
                  'recount sites at %s; after add_service: %s; ServerState built before add_service: %s; recount reaches it: %s; '
                  'tenant_vector_counts originates from the recount: %s' % ([m.loc_of(s_) for s_ in sites], bool(late), st_dom, feeds, from_recount))
+    # ------------------------------------------------------------------ R5 the engine never reports a partly applied bulk load as Err
+    ctx.rule('C14.R5', 'BulkLoadHnsw releases the WHOLE reservation of a batch on the Err edge of TieredEngine::bulk_load_cold_tier (C14.R2). That is exact only if Err '
+                       'means "nothing was loaded": once one document of the batch is durable in the cold tier the engine function has no Err return left — failures '
+                       'after that are reported per item in the Ok value (same analysis as C03.R7)')
+    from rules import C03 as _C03
+    n5 = _C03.no_failure_after_canonical(ctx, prog, 'C14.R5', ('TieredEngine::bulk_load_cold_tier',))
+    ctx.floor('C14.R5', 'canonical inserts in bulk_load_cold_tier', n5, 1, 'the per-document insert')
     ctx.stat('functions_analysed', len(HANDLERS) + 1)
